@@ -44,9 +44,17 @@ impl GenericDataBlock {
     /// their floating point representation. Additionally, identifies special values such as "below
     /// threshold" and "range folded".
     pub fn decoded_values(&self) -> Vec<ScaledMomentValue> {
-        self.encoded_data
-            .iter()
-            .copied()
+        let raw_values: Vec<u16> = if self.header.data_word_size == 16 {
+            self.encoded_data
+                .chunks_exact(2)
+                .map(|word| u16::from_be_bytes([word[0], word[1]]))
+                .collect()
+        } else {
+            self.encoded_data.iter().map(|&value| value as u16).collect()
+        };
+
+        raw_values
+            .into_iter()
             .map(|raw_value| {
                 if self.header.scale == 0.0 {
                     return ScaledMomentValue::Value(raw_value as f32);
@@ -66,9 +74,10 @@ impl GenericDataBlock {
     /// Get moment data from this generic data block. Note that this will clone the underlying data.
     #[cfg(feature = "nexrad-model")]
     pub fn moment_data(&self) -> nexrad_model::data::MomentData {
-        nexrad_model::data::MomentData::from_fixed_point(
+        nexrad_model::data::MomentData::from_fixed_point_with_word_size(
             self.header.scale,
             self.header.offset,
+            self.header.data_word_size,
             self.encoded_data.clone(),
         )
     }
@@ -76,9 +85,10 @@ impl GenericDataBlock {
     /// Convert this generic data block into common model moment data, minimizing data copies.
     #[cfg(feature = "nexrad-model")]
     pub fn into_moment_data(self) -> nexrad_model::data::MomentData {
-        nexrad_model::data::MomentData::from_fixed_point(
+        nexrad_model::data::MomentData::from_fixed_point_with_word_size(
             self.header.scale,
             self.header.offset,
+            self.header.data_word_size,
             self.encoded_data,
         )
     }
